@@ -592,8 +592,13 @@ def mkkey(k):
 def index_strategy(draw):
     sp = draw(st.booleans())
     A = draw(c16.sp_st()) if sp else draw(c16.dn_st())
-    op = draw(st.sampled_from(["get1", "get2", "set1", "set2", "ctor", "size", "size", "fromlist", "setself"]))
+    op = draw(st.sampled_from(["get1", "get2", "set1", "set2", "ctor", "size", "size", "fromlist", "setself", "frombuf", "frombuf"]))
     n1 = A["m"] * A["n"]
+    if op == "frombuf":
+        # constructors reading foreign memory through the buffer protocol (exactly sized numpy / array / bytes sources,
+        # every format, stride pattern and target typecode): generator and value oracle of C20, run under ASan here
+        from checks import c20
+        return dict(op=op, A=dict(tc="d", m=0, n=0, v=[]), imp=draw(c20.import_st()))
     if op == "setself":
         # an integer matrix used as its own index set: A[A] = v, A[A, j] = v
         L = draw(st.integers(1, 6))
@@ -619,6 +624,12 @@ def _probe():
 def index_oracle(case, stats=None):
     A = c16.mk_sp(case["A"]) if "I" in case["A"] else c16.mk_dn(case["A"])
     op = case["op"]
+    if op == "frombuf":
+        from checks import c20
+        c20.import_oracle(case["imp"], None)
+        if stats is not None:
+            stats.evaluated(case, True, ["index:frombuf:" + case["imp"]["src"]])
+        return
     res = None
     try:
         if op == "get1":
